@@ -44,7 +44,7 @@ ASSUMPTIONS = [
     "tau_max is a constructor argument without public setter, so the refit history varies the data (realisation and length) only",
     "a TypeError/ValueError for an integer option given as numpy integer or integer-valued float is a refusal (tallied, not judged); a Python int is never refused",
 ]
-TALLY_KEYS = ("data", "prov", "n", "tau_max", "n_pca_modes", "solver", "topt", "ttype")
+TALLY_KEYS = ("data", "prov", "n", "tau_max", "n_pca_modes", "solver", "topt", "ttype", "tlab")
 TRUSTED = ["statsmodels import shim not used here"]
 
 NLAT, NLON = 3, 2
@@ -106,6 +106,15 @@ def cases(tier, seed):
                     out.append(dict(base, data=data, n=40, tau_max=tau_max, n_pca_modes=k, n_modes=m, topt="tau_max", ttype=ttype))
         for topt, ttype in (("n_modes", "np.int64"), ("n_modes", "np.int32"), ("n_pca_modes", "np.int64"), ("n_pca_modes", "np.int32"), ("tau_max", "float"), ("n_modes", "float"), ("n_pca_modes", "float")):
             out.append(dict(base, data=data, n=40, tau_max=5, n_pca_modes=4, n_modes=2, topt=topt, ttype=ttype))
+    # ---- labels of the time axis: the series is time-ordered as STORED (position), whatever its labels look like - wrapped
+    #      day-of-year labels, unpadded strings, descending numbers; nothing may re-order the samples by label
+    for data in DATA:
+        r = RANK[data]
+        pairs = [(k, m) for k in range(2, r + 1) for m in range(1, k + 1)] if tier == "thorough" else [(2, 2), (r, 1), (r, r)]
+        for tau_max in ((1, 2, 5, 13) if tier == "thorough" else (2, 5)):
+            for tlab in TLABELS[1:]:
+                for (k, m) in pairs:
+                    out.append(dict(base, data=data, n=40, tau_max=tau_max, n_pca_modes=k, n_modes=m, tlab=tlab))
     # ---- long lag window
     for data in (DATA if tier == "thorough" else ("ar_mix_noise", "osc_noise")):
         r = RANK[data]
@@ -155,11 +164,26 @@ def make_series(data, n, seed, salt=0):
     return X + mu[None, :]
 
 
+TLABELS = ("ascending", "wrapped", "strings", "descending")
+
+
+def time_labels(kind, n):
+    if kind == "wrapped":  # day-of-year style: starts late in the cycle and wraps around - unique, not monotonic
+        return (np.arange(n) + (2 * n) // 3) % n + 1
+    if kind == "strings":  # unpadded: lexicographic order differs from position ("t10" < "t2")
+        return np.array(["t%d" % i for i in range(n)], dtype=object)
+    if kind == "descending":
+        return np.arange(n)[::-1] * 10
+    return np.arange(n)
+
+
 def build_input(case, seed, n=None, salt=0):
     import xarray as xr
 
     X = make_series(case["data"], n or case["n"], seed, salt)
     da = D.da_grid(X, NLAT, NLON, lats=LATS)
+    if case.get("tlab", "ascending") != "ascending":
+        da = da.assign_coords(time=time_labels(case["tlab"], da.sizes["time"]))
     wvec = wda = None
     if case["weights"]:
         rng = np.random.default_rng([int(seed), 77, P])
@@ -223,6 +247,8 @@ def run_case(case, seed):
         opts[topt] = ARGTYPES[ttype](opts[topt])  # same value, other type
     V = []
     feats = dict(prov=case.get("prov", "fresh"))
+    if case.get("tlab", "ascending") != "ascending":
+        feats["time_labels"] = case["tlab"]
     if ttype != "int":
         feats.update(argtype=ttype, arg=topt)
     if tmax > 256:
